@@ -15,22 +15,23 @@ import (
 )
 
 type World struct {
-	fset       *token.FileSet
-	prog       *ssa.Program
-	pkgs       []*packages.Package
-	spkgs      []*ssa.Package
-	C          *Contracts
-	typeIDs    map[string]int
-	typeByID   map[int]types.Type
-	implFns    map[string]types.Type
-	pkgByName  map[string]*types.Package
-	modulePath string
-	repo       string
-	verif      string
-	funcs      map[string]*ssa.Function
-	loadS      float64
-	inlineOK   map[*ssa.Function]bool
-	renamed    map[string]map[string]string // contract key -> recorded name -> current name (see names.go)
+	calleeLockMemo map[*ssa.Function][]calleeLock
+	fset           *token.FileSet
+	prog           *ssa.Program
+	pkgs           []*packages.Package
+	spkgs          []*ssa.Package
+	C              *Contracts
+	typeIDs        map[string]int
+	typeByID       map[int]types.Type
+	implFns        map[string]types.Type
+	pkgByName      map[string]*types.Package
+	modulePath     string
+	repo           string
+	verif          string
+	funcs          map[string]*ssa.Function
+	loadS          float64
+	inlineOK       map[*ssa.Function]bool
+	renamed        map[string]map[string]string // contract key -> recorded name -> current name (see names.go)
 }
 
 func (w *World) typeID(t types.Type) int {
